@@ -212,7 +212,8 @@ def shard(desc):
                     res.violation(PROP, '%s:%s' % (typ, 'serialize-modifies' if mode == 'SO' else 'roundtrip-visible'),
                                   '%s: %s at position %d of %d (format %s) changed the final result: %s' % (
                                       typ, 'serialising' if mode == 'SO' else 'a serde round trip', c.meta['k'],
-                                      len(base.ops), c.meta['fmt'], why), c, variant)
+                                      len(base.ops), c.meta['fmt'], why), c, variant,
+                                  detail={'baseline': base.to_json(), 'baseline_marks': bm, 'marks': m})
                     break
             if mode == 'S':
                 res.count('roundtrip_variants')
@@ -294,3 +295,22 @@ def run(tier, seed):
     return common.finish(PROP, tier, seed, total, RULE, t0, ASSUME, min_events=need,
                          extra={'builds': [v for v, _ in variants] + (['miri'] if tier == 'thorough' else []),
                                 'every_position': True})
+
+
+def rejudge(case, recs, res, variant, v):
+    d = v.get('detail') or {}
+    if 'baseline' not in d:
+        bad = [r for r in recs if r.kind in ('e', 'd')]
+        if bad:
+            res.violation(PROP, v['signature'], 'round trip still fails: %s' % bad[0].rest, case, variant)
+        return
+    base = Case.from_json(d['baseline'])
+    blog = run_driver(build(variant), base.text())[base.id]
+    bobs = {r.op: r.kv for r in blog if r.kind == 'o'}
+    obs = {r.op: r.kv for r in recs if r.kind == 'o'}
+    res.count('evaluations')
+    for a, b in zip(d['baseline_marks'], d['marks']):
+        eq, why = kv_equal(bobs[a], obs[b])
+        if not eq:
+            res.violation(PROP, v['signature'], 'the checkpointed run still differs from the uninterrupted run: %s' % why, case, variant)
+            return
